@@ -132,12 +132,7 @@ func minimiseViolation(v *Violation) *Violation {
 		mm, _ := replayOnce(c)
 		for _, x := range mm {
 			if x.class == v.Class {
-				k := ""
-				if c.Engine == "wgsim" {
-					var wl wlWG
-					_ = json.Unmarshal(c.Workload, &wl)
-					k = wgKnown(c.Property, x, &wl, buildRef(wl.Model))
-				}
+				k := engineKnown(c, x)
 				if k == v.Known {
 					c.Detail = x.detail
 					return true
@@ -158,56 +153,23 @@ func minimiseViolation(v *Violation) *Violation {
 			cur = c
 		}
 	}
-	// stage 1: workload
-	switch cur.Engine {
-	case "wgsim":
-		var wl wlWG
-		_ = json.Unmarshal(cur.Workload, &wl)
-		for progress := true; progress && bud.ok(); {
-			progress = false
-			// concurrent: drop tasks / builds
-			if wl.Variant == "concurrent" {
-				for ti := range wl.Tasks {
-					if len(wl.Tasks) <= 1 {
-						break
-					}
-					w2 := wl
-					w2.Tasks = append(append([][]int(nil), wl.Tasks[:ti]...), wl.Tasks[ti+1:]...)
-					if tryWG(&cur, &w2, holds) {
-						wl = w2
-						progress = true
-						break
-					}
-				}
+	// stage 1: workload (engine specific candidate generators)
+	for progress := true; progress && bud.ok(); {
+		progress = false
+		for _, cand := range engineCandidates(cur.Engine, cur.Workload) {
+			if !bud.ok() {
+				break
 			}
-			for _, cm := range modelCandidates(wl.Model) {
-				if !bud.ok() {
-					break
-				}
-				w2 := wl
-				w2.Model = cm
-				if wl.Variant == "perm-types" {
-					if len(cm.Types) != len(wl.Model.Types) {
-						w2.TypePerm = nil
-						for i := len(cm.Types) - 1; i >= 0; i-- {
-							w2.TypePerm = append(w2.TypePerm, i)
-						}
-					}
-				}
-				if wl.Variant == "perm-operands" {
-					continue // Alt must stay in step with Model; left unreduced
-				}
-				if tryWG(&cur, &w2, holds) {
-					wl = w2
-					progress = true
-					break
-				}
+			c := cur
+			c.Workload = cand
+			if holds(&c) {
+				cur = c
+				progress = true
+				break
 			}
 		}
-		cur.Describe = wl.Model.describe()
-	default:
-		minimiseOther(&cur, v, bud, holds)
 	}
+	cur.Describe = engineDescribe(cur.Engine, cur.Workload)
 	// stage 2: tape towards zero
 	tape := append([]uint32(nil), cur.Sched.Tape...)
 	if len(tape) > 0 {
@@ -251,13 +213,51 @@ func minimiseViolation(v *Violation) *Violation {
 	return &cur
 }
 
-func tryWG(cur *Violation, wl *wlWG, holds func(*Violation) bool) bool {
-	wj, _ := json.Marshal(wl)
-	c := *cur
-	c.Workload = wj
-	if holds(&c) {
-		*cur = c
-		return true
+// wgCandidates: smaller variants of a wgsim workload.
+func wgCandidates(raw json.RawMessage) []json.RawMessage {
+	var wl wlWG
+	if json.Unmarshal(raw, &wl) != nil {
+		return nil
 	}
-	return false
+	var out []json.RawMessage
+	emit := func(w wlWG) {
+		b, _ := json.Marshal(&w)
+		out = append(out, b)
+	}
+	if wl.Variant == "concurrent" {
+		for ti := range wl.Tasks {
+			if len(wl.Tasks) <= 1 {
+				break
+			}
+			w2 := wl
+			w2.Tasks = append(append([][]int(nil), wl.Tasks[:ti]...), wl.Tasks[ti+1:]...)
+			emit(w2)
+		}
+		for ti, list := range wl.Tasks {
+			for bi := range list {
+				if len(list) <= 1 {
+					break
+				}
+				w2 := wl
+				w2.Tasks = append([][]int(nil), wl.Tasks...)
+				w2.Tasks[ti] = append(append([]int(nil), list[:bi]...), list[bi+1:]...)
+				emit(w2)
+			}
+		}
+	}
+	if wl.Variant == "perm-operands" {
+		return out // Alt must stay in step with Model; left unreduced
+	}
+	for _, cm := range modelCandidates(wl.Model) {
+		w2 := wl
+		w2.Model = cm
+		if wl.Variant == "perm-types" && len(cm.Types) != len(wl.Model.Types) {
+			w2.TypePerm = nil
+			for i := len(cm.Types) - 1; i >= 0; i-- {
+				w2.TypePerm = append(w2.TypePerm, i)
+			}
+		}
+		emit(w2)
+	}
+	return out
 }
